@@ -17,8 +17,8 @@ reg("C11",
          "block, start mid-file, any stop block): FileExists failing 1/4 (masked) or 5/7 (persistent) times, OpenObject, "
          "header (bad magic / unsupported version / truncated), each Read incl. the EOF read (storage error at / inside the "
          "message, zero length prefix, oversized length prefix (capped at 1 MiB), truncated message, undecodable bytes; 40 % "
-         "with a slow reader.Close()), each preprocessor call, each handler call, failing one-block download during cursor "
-         "resolution; sources: file (60 %), joining with a live factory that never yields a source (25 %), stream.New with an "
+         "with a slow reader.Close()), each preprocessor call, each handler call, failing one-block download / failing listing / damaged one-block file of the forked-blocks store "
+         "during cursor resolution (file source from a cursor, directly and through the joining source); sources: file (60 %), joining with a live factory that never yields a source (25 %), stream.New with an "
          "absent hub and real 100-block bundles (7 %), file source from a cursor (8 %); quick tier samples sites with equal "
          "weight per fault type, thorough tier walks every site of every layout; non-trivial = a fault is injected",
     trusted_base=["Go channels (FIFO, close, select), goroutine scheduling and shutter.Shutdown (one atomic step) are modelled "
